@@ -202,8 +202,8 @@ fn main() {
     let tier = args.get(1).cloned().unwrap_or_else(|| "quick".into());
     let quick = tier == "quick";
     let t0 = std::time::Instant::now();
-    let budget: u64 = if quick { 12_000 } else { 3_000_000 };
-    let sweep_budget: u64 = if quick { 1_500 } else { 100_000 };
+    let budget: u64 = if quick { 12_000 } else { 600_000 };
+    let sweep_budget: u64 = if quick { 1_500 } else { 20_000 };
     let known: Vec<String> = std::fs::read("/verif/known_findings.json").ok().and_then(|b| serde_json::from_slice::<Value>(&b).ok()).map(|k| k["known"].as_array().into_iter().flatten().filter(|x| x["property"] == "C18").map(|x| x["signature"].as_str().unwrap_or("").to_string()).collect()).unwrap_or_default();
     let cfgs = configs18();
     // configurations are independent: explore them on a pool of OS threads (each exploration itself is single-threaded)
